@@ -203,10 +203,10 @@ fn on_demand_case(case: &mut Case) {
     case.sample(|| model.summary());
     case.distinct(model.structural_hash(), reach.count >= 3);
     let threads = *case.rng.pick(&[1usize, 1, 2]);
-    let log = StateLog::default();
+    let log = VisitLog::default();
     let checker = model.clone().checker().threads(threads).visitor(log.clone()).spawn_on_demand();
     let wit = |extra: Value| json!({"model": model.summary(), "threads": threads, "detail": extra});
-    let visited = || -> Vec<u32> { log.0.lock().unwrap().clone() };
+    let visited = || -> Vec<u32> { log.0.lock().unwrap().iter().map(|p| p.last().unwrap().0).collect() };
     let wait_for = |pred: &dyn Fn(&[u32]) -> bool, ms: u64| -> bool {
         let t = Instant::now();
         while t.elapsed() < Duration::from_millis(ms) {
@@ -327,6 +327,17 @@ fn on_demand_case(case: &mut Case) {
     let bfs_names: BTreeSet<&str> = bfs.discoveries.keys().copied().collect();
     if relevant(&names) != relevant(&bfs_names) || checker.unique_state_count() != bfs.unique || !checker.is_done() {
         case.violation("C19/on_demand/verdicts-or-counts-differ-from-bfs", wit(json!({"on_demand": names, "bfs": bfs_names, "unique": checker.unique_state_count(), "bfs_unique": bfs.unique})));
+        return;
+    }
+    // The depth the checker reports must be the depth of something it evaluated: the longest
+    // path it showed to the visitor (every checker numbers a state one deeper than the state it
+    // was generated from, and the visitor is shown exactly that route).
+    let longest = log.0.lock().unwrap().iter().map(|p| p.len()).max().unwrap_or(0);
+    case.add("max_depth_compared_with_visitor_paths", 1);
+    // (with several workers the maximum is maintained with a racy compare-exchange and may lag
+    // behind; it must still never exceed the depth of anything evaluated)
+    if (threads == 1 && checker.max_depth() != longest) || checker.max_depth() > longest {
+        case.violation("C19/on_demand/max_depth-is-not-the-depth-of-the-deepest-evaluated-path", wit(json!({"max_depth": checker.max_depth(), "longest_path_shown_to_the_visitor": longest})));
     }
 }
 
